@@ -44,7 +44,9 @@ const Type& OpMODExpression::type(Context& ctx) const
   const Type& t2 = arg2->type(ctx);
   if (t1 == Type::INTEGER && t2 == Type::INTEGER)
     return Value::type_integer;
-  return Value::type_numeric;
+  if (t1 == Type::NUMERIC || t2 == Type::NUMERIC)
+    return Value::type_numeric;
+  return Value::type_no_type;
 }
 
 #define LVAL1(V,A) (\
